@@ -684,7 +684,7 @@ Dim(k) ==
             ELSE 0
       [] Family = "scripts"  -> V(IF Bound = 1 THEN <<1, 3, 1, 3, 4, 6, 2>> ELSE <<3, 3, 3, 3, 4, 6, 2>>, k)
       [] Family = "leak_scripts" -> V(<<1, 3, 1, 3, 4, 2>>, k)
-      [] Family \in {"sigmut", "leak_sigmut"} -> V(<<2, 72>>, k)
+      [] Family \in {"sigmut", "leak_sigmut"} -> V(<<2, 76>>, k)
       [] Family = "base"     -> V(IF Bound = 0 THEN <<2, 2, 3, 3, 3, 2, 2, 2>> ELSE <<2, 4, 6, 6, 5, 3, 2, 2>>, k)
       [] Family = "mut_uri"  -> IF k = 1 THEN 2 ELSE IF k = 2 THEN NumMutBase
                                 ELSE IF k = 3 THEN Len(MutW(CarrierOf(idx[1]), idx[2]).uri) ELSE 0
@@ -775,7 +775,12 @@ BundleOf ==
                                       [] k = 69 -> [kind |-> "set", pos |-> 0, c |-> 90]     \* 64 characters, one of them not hex
                                       [] k = 70 -> [kind |-> "set", pos |-> 63, c |-> 71]
                                       [] k = 71 -> [kind |-> "fill", c |-> 90]              \* 'Z' x 64
-                                      [] k = 72 -> [kind |-> "fill", c |-> 48]]             \* '0' x 64
+                                      [] k = 72 -> [kind |-> "fill", c |-> 48]              \* '0' x 64
+                                      \* over-long / short signatures that do not contain the correct one
+                                      [] k = 73 -> [kind |-> "flipappend", b |-> B("0")]
+                                      [] k = 74 -> [kind |-> "flipappend", b |-> B("0123456789abcdef")]
+                                      [] k = 75 -> [kind |-> "fliptrunc", n |-> 63]
+                                      [] k = 76 -> [kind |-> "fliptrunc", n |-> 32]]
       [] Family = "base" ->
             LET b == Bundle0(CarrierOf(idx[1]))
                 L1 == [b.L EXCEPT !.method = Methods[idx[2]], !.path = Paths[idx[3]], !.query = Queries[idx[4]],
